@@ -257,3 +257,125 @@ func c04GapFill(p *Prog, r *Report) {
 		r.Ob("gap-fill:"+s+":zero", p.Pos(inner.Pos()), a.zeros > 0, fmt.Sprintf("%d paths end with the 'missing → 0' fallback", a.zeros))
 	}
 }
+
+// c04Dispatch (C04.R6): the yearly reload in the day loop uses, for every
+// weather layout, the loader that the start-up used for that layout: the
+// one-file-per-year reader is called again exactly for the layout it was
+// called for at the start, and the year lookup runs for every layout.
+func c04Dispatch(p *Prog, r *Report) {
+	x := walked(p, "hermes.HermesSession.Run")
+	if x == nil {
+		return
+	}
+	day := dayLoop(x)
+	if day == nil {
+		return
+	}
+	fmtAtomRoot := "driConfig.WeatherFileFormat"
+	var eval func(c *Cond, k int64) tri
+	eval = func(c *Cond, k int64) tri {
+		switch c.Kind {
+		case "const":
+			if c.Val {
+				return triT
+			}
+			return triF
+		case "not":
+			return triNot(eval(c.Sub[0], k))
+		case "and":
+			res := triT
+			for _, s := range c.Sub {
+				switch eval(s, k) {
+				case triF:
+					return triF
+				case triU:
+					res = triU
+				}
+			}
+			return res
+		case "or":
+			res := triF
+			for _, s := range c.Sub {
+				switch eval(s, k) {
+				case triT:
+					return triT
+				case triU:
+					res = triU
+				}
+			}
+			return res
+		case "cmp":
+			if !c.P.MentionsRoot(fmtAtomRoot) {
+				return triU
+			}
+			q := stripVersions(c.P).Subst(func(a *Atom) (Poly, bool) {
+				if a.Root == fmtAtomRoot {
+					return PInt(k), true
+				}
+				return Poly{}, false
+			})
+			v, ok := q.Const()
+			if !ok {
+				return triU
+			}
+			sg := v.Sign()
+			b := false
+			switch c.Op {
+			case token.EQL:
+				b = sg == 0
+			case token.NEQ:
+				b = sg != 0
+			case token.LSS:
+				b = sg < 0
+			case token.LEQ:
+				b = sg <= 0
+			case token.GTR:
+				b = sg > 0
+			case token.GEQ:
+				b = sg >= 0
+			}
+			if b {
+				return triT
+			}
+			return triF
+		}
+		return triU
+	}
+	reach := func(e *Event, k int64) bool {
+		for _, g := range e.Guards {
+			if eval(g, k) == triF {
+				return false
+			}
+		}
+		return true
+	}
+	formats := func(name string, inLoop bool) string {
+		set := map[int64]bool{}
+		n := 0
+		for _, e := range x.Events {
+			if e.Kind != "call" || e.Name != name || e.InLoop(day) != inLoop {
+				continue
+			}
+			n++
+			for k := int64(0); k <= 2; k++ {
+				if reach(e, k) {
+					set[k] = true
+				}
+			}
+		}
+		if n == 0 {
+			return "never called"
+		}
+		s := ""
+		for k := int64(0); k <= 2; k++ {
+			if set[k] {
+				s += fmt.Sprint(k)
+			}
+		}
+		return "{" + s + "}"
+	}
+	startPerYear, rollPerYear := formats("hermes.WetterK", false), formats("hermes.WetterK", true)
+	startLoad, rollLoad := formats("hermes.LoadYear", false), formats("hermes.LoadYear", true)
+	ok := startPerYear == rollPerYear && startLoad == rollLoad && strings.HasPrefix(startPerYear, "{") && startLoad == "{012}"
+	r.Ob("reload-dispatch", p.Pos(day.Stmt.Pos()), ok, fmt.Sprintf("weather layouts for which the one-file-per-year reader is called: at the start %s, at the yearly reload %s; for which the year lookup runs: at the start %s, at the reload %s (must agree, the lookup for all three layouts)", startPerYear, rollPerYear, startLoad, rollLoad))
+}
